@@ -559,8 +559,14 @@ fn write_regular_header(
             return Err(RejectReason::DuplicateCl);
         }
         if let Some(length) = from_utf8(value).ok().and_then(|v| v.parse::<usize>().ok()) {
+            let already_declared = kawa.body_size == BodySize::Length(length);
             if !set_content_length(&mut kawa.body_size, length) {
                 return Err(RejectReason::ClTeConflict);
+            }
+            if already_declared {
+                // RFC 9110 §8.6: an equal duplicate is replaced by the single valid
+                // field already forwarded; two Content-Length lines are never emitted.
+                return Ok(());
             }
         } else {
             return Err(RejectReason::DuplicateCl);
@@ -848,7 +854,7 @@ where
                     } else if compare_no_case(&k, b":path") {
                         // RFC 9112 §3.2: fragment identifiers (`#`) are
                         // prohibited in request-targets.
-                        if v.contains(&b'#') {
+                        if v.contains(&b'#') || v.contains(&b' ') {
                             metric_reject(RejectReason::InvalidPath);
                             *invalid_headers = true;
                             return;
